@@ -99,7 +99,8 @@ def gen_le(rng, tier, seed):
             a, c, b = trip
             if b in adv or linked(a, b) or linked(c, b):
                 continue
-            ops.append(['race', a, c, b, rng.choice(['public', 'random'])])
+            # (on an extended advertiser the set may have a random address of its own)
+            ops.append(['race', a, c, b, rng.choice(['public', 'random', 'own'] if ext[b] else ['public', 'random'])])
             break  # the model cannot say who wins; the run ends with this op
         elif r < 0.93:
             a = rng.randrange(n)
@@ -559,7 +560,15 @@ def _race(cx, op, mode):
     _, a, c, b, own_b = op
     for ev in cx.conn_events:
         ev.clear()
-    st, t = sim.run(world[b].device.start_advertising(own_address_type=cx.own_type(own_b), advertising_interval_min=30.0, advertising_interval_max=30.0), 10.0)
+    if own_b == 'own':
+        from bumble.device import AdvertisingParameters
+        own_addr = cx.hci.Address(f'C{b}:00:00:00:0A:5E', cx.hci.Address.RANDOM_DEVICE_ADDRESS)
+        params = AdvertisingParameters(own_address_type=cx.own_type('random'), primary_advertising_interval_min=30.0, primary_advertising_interval_max=30.0)
+        st, t = sim.run(world[b].device.create_advertising_set(advertising_parameters=params, random_address=own_addr, advertising_data=ADV_PAYLOADS[1]), 10.0)
+        own_b = 'set:' + str(own_addr).split('/')[0]
+        sim.probe('race_for_an_advertising_set_with_its_own_address')
+    else:
+        st, t = sim.run(world[b].device.start_advertising(own_address_type=cx.own_type(own_b), advertising_interval_min=30.0, advertising_interval_max=30.0), 10.0)
     if st != 'done' or t.exception() is not None:
         return
     t1 = sim.loop.create_task(world[a].device.connect(cx.addr(b, own_b), timeout=1.0))
